@@ -10,6 +10,8 @@ from .c02 import pivot_tokens
 
 STRATS = ["sqrt", "rice", "sturges", "fd", "auto"]
 INT_ETS = ["i8", "u8", "i32", "i64", "u16", "usize"]
+KIND = {"sqrt": 0, "rice": 1, "sturges": 2, "fd": 3, "auto": 4}
+SGBITS = {"i8": ("true", 8), "u8": ("false", 8), "i32": ("true", 32), "i64": ("true", 64), "u16": ("false", 16), "usize": ("false", 64)}
 UMAX = {"i8": 127, "u8": 255, "i32": 2 ** 31 - 1, "i64": 2 ** 63 - 1, "u16": 65535, "usize": 2 ** 64 - 1}
 
 
@@ -166,20 +168,24 @@ def k4_class(et, nbins_needed):
 
 class C12(Prop):
     id = "C12"
-    imports = ["Run.RunStrat"]
+    imports = ["Run.RunStrat", "Run.RunWidths"]
     per_case_timeout = 15.0
     coq_batch = 40
     rule = ("five strategies x element types {i8, u8, i32, i64, u16, usize, N64}; data sets of length 1..200 (quick) / up to "
             "10^4 (thorough) with values not exactly representable in binary, large offsets with small spread, heavy ties "
             "(zero inter-quartile range), constant and empty data; 1-3 columns through GridBuilder with a histogram over the "
-            "built grid. The advised width is read from the implementation and fed to the model (n_bins, edges, number of "
-            "bins built are compared exactly: integers as values, N64 as bit patterns). Each case may hang (the D4 outcome): "
-            "per-case timeout. Non-trivial: the strategy accepted the data and built >= 2 bins.")
+            "built grid (counts recounted from the grid's own bin ranges). The whole strategy is modelled (Hist/Widths.v): the "
+            "model COMPUTES the width from the data (sqrt and round in Flocq, the quartiles by the sort-based specification, "
+            "integer arithmetic overflow-checked) and the two libm values powf(n, 1/3), log2(n) recorded by the harness; "
+            "outcome, width, n_bins, number of bins built and every edge are compared exactly (integers as values, N64 as bit "
+            "patterns). FreedmanDiaconis / Auto run under scripted, policy and drawn pivots. Each case may hang (the D4 "
+            "outcome): per-case timeout. Non-trivial: the strategy accepted the data and built >= 2 bins.")
     correspondences = {"strategy": "corr:C12/strategy/outcome+n_bins+edges", "gridb": "corr:C12/gridbuilder/(oracle only)"}
-    trusted_base = ["the advised bin width (sqrt / powf / log2 / Nearest quantiles) is an input of the model, read from bin_width(); the property constrains it only through the validity check",
+    trusted_base = ["libm powf(n, 1/3) and log2(n): oracle values recorded from the implementation for each n (everything else of the width formulas is computed by the model); data sets of more than 1500 values under FreedmanDiaconis / Auto are evaluated with the observed width as a model input (insertion sort inside Coq)",
                     "a hang is observed as TIMEOUT by the harness driver (15 s per case)"]
     assumptions = ["integer data stays far enough from the type's limits that max + width is representable (generator stays inside)",
                    "known-finding class K4: T::from_usize(k) is None for some k <= n_bins (narrow integer types)",
+                   "known-finding class K6: finite N64 data whose range max - min overflows to +inf (the infinite width is accepted, the first edge is NaN: panic in the debug profile)",
                    "binary64: termination of the counting loop is established per executed case (fuel not exhausted), not by a theorem"]
 
     def gen(self, tier, rng):
@@ -287,6 +293,8 @@ class C12(Prop):
         # K4 witness (known finding): 128 bins of width 1 over i8
         data = [(-60 + (i * 127) // 9999) for i in range(10000)]
         out.append(mk_strategy_case("sqrt", "i8", data, lay1(10000)))
+        # K6 witness (known finding): the range of finite N64 data overflows to +inf, the infinite width is accepted
+        out.append(mk_strategy_case("sqrt", "n64", [-1.0e308, 1.0e308], lay1(2)))
         return out
 
     def parse(self, case):
@@ -394,6 +402,11 @@ class C12(Prop):
         return out + gridb_recount(case)
 
     def known_class(self, case, reasons):
+        if case.routine == "strategy" and case.et == "n64" and case.data:
+            o = case.obs or {}
+            vals = [bits_f64(b) for b in case.data_m]
+            if o.get("tag") == "PANIC" and all(math.isfinite(v) for v in vals) and math.isinf(max(vals) - min(vals)):
+                return "K6"
         if case.routine == "strategy" and case.et != "n64" and case.data:
             o = case.obs or {}
             if o.get("tag") == "PANIC":
@@ -411,10 +424,46 @@ class C12(Prop):
         return None
 
     def chk_term(self, case):
+        """the whole strategy against the model of Hist/Widths.v + Hist/Strategies.v: the width is COMPUTED by the model
+        from the data and the two libm values the harness recorded for this n; outcome, width, advertised and built
+        bin counts and every edge are compared exactly"""
         if case.routine != "strategy":
             return None
         o = case.obs
         et = case.et
+        libm = o.get("libm")
+        n = len(case.data)
+        if libm is None or (case.name in ("fd", "auto") and n > 1500):
+            return self._chk_term_width_input(case)     # insertion sort of > 1500 values inside Coq: too slow
+        case._full = True
+        if o["tag"] == "OK":
+            edges = [int(t) for t in o["edges_t"]]
+            w = int(o["w_t"])
+            obs = [0, w, o["nb"], o["nbuilt"], len(edges)] + edges
+            if o["nb"] > 20000 and (et == "n64" or getattr(self, "_tier", "quick") == "quick"):
+                # ~70 000 bins: only the decision, the width and the extremes are compared (the grid itself by the oracle)
+                cd = Codec(et)
+                vals = [num(et, t) for t in map(str, case.data_m)]
+                imn = min(range(n), key=lambda i: (vals[i], i))
+                imx = max(range(n), key=lambda i: (vals[i], -i))
+                return "chkw (%s) %s" % (self._model(case, head=True), zlist([0, w, case.data_m[imn], case.data_m[imx]]))
+            if len(edges) > 2000:
+                ws = sum((i + 1) * e for i, e in enumerate(edges))
+                dig = obs[:5] + [len(edges), edges[0], edges[-1], sum(edges), ws]
+                return "chkwd (%s) %s" % (self._model(case), zlist(dig))
+            return "chkw (%s) %s" % (self._model(case), zlist(obs))
+        if o["tag"] == "ERR" and o["kind"] in ("E", "S"):
+            return "chkw (%s) %s" % (self._model(case), zlist([1] if o["kind"] == "E" else [2]))
+        if o["tag"] == "PANIC":
+            # width arithmetic that leaves the element type, from_usize(i) = None (K4), an infinite N64 width (K6): the
+            # model panics too; a panic while placing min + i * w in a narrow signed type (K5) is outside the model
+            return "chkw (%s) %s" % (self._model(case), zlist([3]))
+        return "false"
+
+    def _chk_term_width_input(self, case):
+        o = case.obs
+        et = case.et
+        case._full = False
         if o["tag"] == "OK":
             edges = [int(t) for t in o["edges_t"]]
             obs = [0, o["nb"], o["nbuilt"], len(edges)] + edges
@@ -422,8 +471,6 @@ class C12(Prop):
         elif o["tag"] == "ERR" and o["kind"] == "E":
             obs, w = [1], 0
         elif o["tag"] == "ERR" and o["kind"] == "S":
-            # the model needs the advised width to reproduce a Strategy rejection: constant data
-            # rejects for every width; otherwise the width is unknown and the oracle decides
             if case.data and len(set(case.data_m)) == 1:
                 obs, w = [2], 1 if et != "n64" else f64_bits(1.0)
             else:
@@ -434,16 +481,22 @@ class C12(Prop):
             return "false"
         case._w = w
         if o["tag"] == "OK" and o["nb"] > 20000 and (et == "n64" or getattr(self, "_tier", "quick") == "quick"):
-            # the model (unary indexes, insertion sort of the edges) needs minutes for ~70 000 bins: the quick tier
-            # and the binary64 instance leave these cases to the oracle; the thorough tier evaluates the integer model
             return None
         if o["tag"] == "OK" and len(edges) > 2000:
             ws = sum((i + 1) * e for i, e in enumerate(edges))
             dig = obs[:4] + [len(edges), edges[0], edges[-1], sum(edges), ws]
-            return "chksd (%s) %s" % (self._model(case, w), zlist(dig))
-        return "chks (%s) %s" % (self._model(case, w), zlist(obs))
+            return "chksd (%s) %s" % (self._model_w(case, w), zlist(dig))
+        return "chks (%s) %s" % (self._model_w(case, w), zlist(obs))
 
-    def _model(self, case, w):
+    def _model(self, case, head=False):
+        cb, l2 = case.obs["libm"]
+        k = KIND[case.name]
+        if case.et == "n64":
+            return "%s %d %s %d %d" % ("m_head_n64" if head else "m_full_n64", k, zlist(case.data_m), cb, l2)
+        sg, bits = SGBITS[case.et]
+        return "%s %s %d %d %s %d %d" % ("m_head_int" if head else "m_full_int", sg, bits, k, zlist(case.data_m), cb, l2)
+
+    def _model_w(self, case, w):
         if case.et == "n64":
             return "m_strategy_n64 %s %d" % (zlist(case.data_m), w)
         return "m_strategy_int %d %s %s" % (UMAX[case.et], zlist(case.data_m), "(%d)" % w if w < 0 else str(w))
@@ -451,7 +504,9 @@ class C12(Prop):
     def model_term(self, case):
         if case.routine != "strategy":
             return None
-        return self._model(case, getattr(case, "_w", 1))
+        if getattr(case, "_full", False) or (case.obs or {}).get("libm") is not None and not hasattr(case, "_w"):
+            return self._model(case)
+        return self._model_w(case, getattr(case, "_w", 1))
 
     def nontrivial(self, case):
         o = case.obs
